@@ -23,6 +23,8 @@ Requests:
                         ligature) equal `interpT`; (`g`/`t` = 2: S out of fuel)
 * `runs P | W | I | W | I …` → one `mgst` verdict (as a 4-digit word) per word
 * `runn`, `runsn`      → the same for `RunOptions { disable_left_boundary: true }` (`runNoLB`, `seqNoLB`)
+* `runsz P | W | I …`  → as `runs` for a very large program: no table is built, only the pairs the words
+                        use are evaluated (`mkLazy`)
 * `runx nolb ov …`, `runsx nolb ov …` → the same for any `RunOptions` (`runOpt`; S = `interp` on
                         `withRb p (effRb p ov)`); `ov = -1` = no override
 -/
@@ -128,6 +130,9 @@ structure Cache where
   arr : Array (Option Repl)
   acyclic : Bool
   k : Nat
+  /-- for very large programs: no table is built, every lookup evaluates `table` (with `bound p`
+  computed once) — only the pairs the words use are ever evaluated -/
+  lazyB : Option Nat := none
 
 def idx (l : Option Nat) (r : Nat) : Nat := (match l with | none => 256 | some x => x) * 256 + r
 
@@ -147,7 +152,15 @@ def mkCache (p : Program) : Cache :=
     (Array.replicate (257 * 256) none)
   { p, arr, acyclic := prs.all (fun pr => (arr[idx pr.1 pr.2]?).join.isSome), k := alphabetSize p }
 
+/-- The cache for a large program: nothing is precomputed. The program is declared acyclic by
+the caller (the generator builds it from kerns and non-pending ligature forms only). -/
+def mkLazy (p : Program) : Cache :=
+  { p, arr := #[], acyclic := true, k := 12, lazyB := some (bound p) }
+
 def Cache.tbl (c : Cache) (l : Option Nat) (r : Nat) : Option Repl :=
+  match c.lazyB with
+  | some b => tableB b c.p l r
+  | none =>
   if r < 256 && (match l with | none => true | some x => x < 256) then
     (c.arr[idx l r]?).join
   else table c.p l r
@@ -356,9 +369,9 @@ def decWI (a b : List String) : Option (List Nat × List Item) := do
     if rest.isEmpty && w.2.isEmpty then pure (w.1.map Int.toNat, items) else none
   | [] => none
 
-def handleRuns (lb : Bool) (ov : Option Nat) (p : Program) : List (List String) → List String
+def handleRuns (lb : Bool) (ov : Option Nat) (p : Program) (lazy : Bool := false) : List (List String) → List String
   | a :: b :: t =>
-    let c := mkCache p
+    let c := if lazy then mkLazy p else mkCache p
     let rec go : List (List String) → List String
       | a :: b :: t =>
         (match decWI a b with
@@ -382,11 +395,11 @@ def handleRun (lb : Bool) (ov : Option Nat) (ws : List String) : String :=
       | _, _ => "bad-request"
     | _ => "bad-request"
 
-def handleRunsReq (lb : Bool) (ov : Option Nat) (ws : List String) : String :=
+def handleRunsReq (lb : Bool) (ov : Option Nat) (ws : List String) (lazy : Bool := false) : String :=
     match splitBar ws with
     | pw :: rest =>
       match ints? pw >>= decProg with
-      | some (p, []) => " ".intercalate (handleRuns lb ov p rest)
+      | some (p, []) => " ".intercalate (handleRuns lb ov p lazy rest)
       | _ => "bad-request"
     | _ => "bad-request"
 
@@ -410,6 +423,7 @@ def handle (line : String) : String :=
     match nolb.toInt?, ov.toInt? with
     | some a, some b => handleRun (a == 0) (optNat b) ws
     | _, _ => "bad-request"
+  | "runsz" :: ws => handleRunsReq true none ws true
   | "runsx" :: nolb :: ov :: ws =>
     match nolb.toInt?, ov.toInt? with
     | some a, some b => handleRunsReq (a == 0) (optNat b) ws
